@@ -29,9 +29,9 @@ def fact(p, name, ok, detail, fn):
   p.oblige(name, [], z3.BoolVal(bool(ok)), kind='frame', detail=detail, fn=fn)
 
 
-def v_frames(p):
-  files = [f'fedjax/algorithms/{a}.py' for a in ALGS] + [AGG, 'fedjax/aggregators/aggregator.py',
-                                                          'fedjax/core/federated_algorithm.py']
+def v_frames(p, files=None, min_sites=15):
+  files = files or [f'fedjax/algorithms/{a}.py' for a in ALGS] + [AGG, 'fedjax/aggregators/aggregator.py',
+                                                                   'fedjax/core/federated_algorithm.py']
   n_sites = 0
   for rel in files:
     src, tree = parse(rel)
@@ -49,7 +49,7 @@ def v_frames(p):
       rebind = [x for x in ast.walk(n) if isinstance(x, (ast.Nonlocal, ast.Global))]
       fact(p, f'frame.globals:{n.name}', not rebind,
            f'{rel}::{n.name} never rebinds closure or module variables', n.name)
-  fact(p, 'frame.sites', n_sites >= 15, f'{n_sites} mutation sites were analysed (vacuity guard)', 'OWN')
+  fact(p, 'frame.sites', n_sites >= min_sites, f'{n_sites} mutation sites were analysed (vacuity guard)', 'OWN')
 
 
 def v_dataclass(p):
